@@ -67,7 +67,7 @@ type reference struct {
 }
 
 type readyCallback struct {
-	refMap  map[string]bool
+	refMap  map[*Subscription]bool
 	cb      func()
 	loading int
 }
@@ -246,7 +246,7 @@ func (s *Subscription) OnReady(cb func()) {
 	}
 
 	s.onLoaded(&readyCallback{
-		refMap: make(map[string]bool),
+		refMap: make(map[*Subscription]bool),
 		cb:     cb,
 	})
 }
@@ -256,7 +256,7 @@ func (s *Subscription) OnReady(cb func()) {
 // the callback will directly be queued onto the connections worker goroutine.
 func (s *Subscription) onLoaded(rcb *readyCallback) {
 	// Add itself to refMap
-	rcb.refMap[s.rid] = true
+	rcb.refMap[s] = true
 	rcb.loading++
 
 	if s.state >= stateLoaded {
@@ -471,10 +471,10 @@ func (s *Subscription) subscribeRef(v codec.Value) bool {
 // collectRefs will wait for all references to be loaded
 // and call the callback once completed.
 func (s *Subscription) collectRefs(rcb *readyCallback) {
-	for rid, ref := range s.refs {
+	for _, ref := range s.refs {
 		// Don't wait for already ready references
 		// or references already included in the refMap
-		if ref.sub.IsReady() || rcb.refMap[rid] {
+		if ref.sub.IsReady() || rcb.refMap[ref.sub] {
 			continue
 		}
 
